@@ -16,8 +16,12 @@
               what the input size warrants"), each with the bound its handler enforces (harness/cmd/entry/fam_big.go):
                 alias    n line pointers to ONE tuple: ReadTuples reports n·len(tuple) bytes out of one 8 KiB page
                          (open finding C10-page-alias, tag kf:C10-page-alias; MODEL reproduces it)
-                zbomb    deflate bomb reaching the zlib fallback of ReassembleTOAST (fixed by fixes/toast/20)
-                lz4amp   LZ4 length extension, 255:1 — what the format can reach, accepted (bounded by 255·len)
+                zbomb    deflate bomb (1032:1) reaching the zlib fallback of ReassembleTOAST, behind a pointer declaring
+                         5 bytes (cut there since fixes/toast/20) and behind one declaring 0xFFFFFFFF (cut at 255 bytes per
+                         stored byte since fixes/toast/22; 20 alone left 203 MB / 1.2 GB allocated: REVIEW2 #1)
+                lz4amp   LZ4 length extension, 255:1, pointer declaring 0xFFFFFFFF: the ratio is the format's (66.8 MB out
+                         of 256 KiB); the handler's envelope is about the ALLOCATION: <= 2·output + 8·input + 1 MiB
+                         (fixes/toast/22: one allocation of the exact size; it was 5.5 × output = 368 MB: REVIEW2 #6)
                 pglzamp  pglz length extension, 87:1 — likewise
                 seqscan / dropscan   pg_database with 2019 rows: ScanAllSequences / ScanDroppedColumns re-parsed the file
                          per row (fixed by fixes/control/20, fixes/dropped/03)
@@ -230,7 +234,7 @@ def aliasModel (file : Bytes) : String :=
   | .ok es => if totalTupleBytes es > file.length then s!"amplified:{es.length}" else "ok"
   | .error e => faultStr e
 
-def nResource : Nat := 13
+def nResource : Nat := 14
 
 /-- case `i` (built on demand: some of them take seconds to build) -/
 def resourceCase (i : Nat) : List String × List String :=
@@ -248,7 +252,8 @@ def resourceCase (i : Nat) : List String × List String :=
   | 9 => (["nt"], ["dropscan", hexRle (dbAliasPage 2019)])
   | 10 => (["nt"], ["dropscan", hexRle (repeatTo 16384 (dbAliasPage 2019))])
   | 11 => (["nt"], ["decode", "3802", hexRle (deepJsonb 32768)])
-  | _ => (["nt"], ["decode", "1007", hexRle (nullArray ())])
+  | 12 => (["nt"], ["decode", "1007", hexRle (nullArray ())])
+  | _ => (["nt"], ["reasm", "zbombmax", hexRle (extPtr 0xFFFFFFFF 0 1 0), hexRle (zbombStream ())])
 
 def resourceEval (args : List String) : String :=
   match args with
